@@ -142,7 +142,7 @@ func (e *End) WriteMessage(b []byte) error {
 		}
 	}
 	if w.run != nil {
-		w.run.add(&Ev{Ev: "w.write", K: e.dirName(), Seq: info.Seq, C: info.ID, A: ok, B: info.Class, Sent: -1})
+		w.run.add(&Ev{Ev: "w.write", K: e.dirName(), Seq: info.Seq, C: info.ID, A: ok, B: info.Class, Sent: -1, S: info.MsgS, M: info.MsgN})
 	}
 	w.cond.Broadcast()
 	w.mu.Unlock()
@@ -311,6 +311,8 @@ type FrameInfo struct {
 	Method string
 	ErrTxt string
 	Raw    []byte
+	MsgS   int // stream message body: stream id
+	MsgN   int // stream message body: message number
 }
 
 func uvarint(b []byte) (uint64, int) {
@@ -382,6 +384,12 @@ func parseFrame(b []byte, request bool) FrameInfo {
 		fi.Body = bs[3]
 	}
 	fi.ID = bodyID(fi.Body)
+	if len(fi.Body) >= 17 && fi.Body[0] == 0xC5 {
+		var m StreamMsg
+		if decStreamMsg(fi.Body, &m) == nil {
+			fi.MsgS, fi.MsgN = m.Stream, m.N
+		}
+	}
 	if fi.ID == 0 && fi.HasErr {
 		fi.ID = errID(fi.ErrTxt)
 	}
